@@ -168,6 +168,7 @@ type loopInfo struct {
 	autoRI  *ssa.Alloc
 	autoDec string
 	autoMap string
+	autoStr string // iterator id of a range-over-string loop
 	autoMapT *types.Map
 	entryOld *State
 }
